@@ -189,9 +189,12 @@ fn orchestrate(p: &dyn Prop, tier: Tier, seed: u64) -> i32 {
         println!("INCONCLUSIVE property={id} reason=header-mismatch: {e}");
         return EXIT_INCONCLUSIVE;
     }
-    let evidence_path = format!("{VERIF}/evidence/{id}.json");
-    let _ = std::fs::create_dir_all(format!("{VERIF}/evidence"));
-    let _ = std::fs::create_dir_all(format!("{VERIF}/replays"));
+    // (VERIF_OUT_DIR: tools/mutsweep.py runs scratch copies of this binary against mutated copies of riti, several at a time;
+    // their evidence and witnesses must not land in /verif)
+    let out_dir = std::env::var("VERIF_OUT_DIR").unwrap_or_else(|_| VERIF.to_string());
+    let evidence_path = format!("{out_dir}/evidence/{id}.json");
+    let _ = std::fs::create_dir_all(format!("{out_dir}/evidence"));
+    let _ = std::fs::create_dir_all(format!("{out_dir}/replays"));
     let base = scratch_base();
     let _ = std::fs::remove_dir_all(&base);
     std::fs::create_dir_all(&base).expect("scratch base");
@@ -404,7 +407,7 @@ fn orchestrate(p: &dyn Prop, tier: Tier, seed: u64) -> i32 {
     if nviol > 0 {
         for v in merged.violations.iter().take(25) {
             let h = fnv(v.sig.as_bytes());
-            let path = format!("{VERIF}/replays/{id}-{:08x}.json", (h & 0xffff_ffff) as u32);
+            let path = format!("{out_dir}/replays/{id}-{:08x}.json", (h & 0xffff_ffff) as u32);
             let doc = json!({"property": id, "clause": v.clause, "signature": v.sig, "case": v.case,
                              "expected": v.expected, "observed": v.observed, "seed": seed as i64, "tier": tier.name(), "occurrences": v.count});
             let _ = std::fs::write(&path, serde_json::to_string_pretty(&doc).unwrap());
